@@ -242,36 +242,9 @@ func (fc *FnCtx) Translate() (err error) {
 	return nil
 }
 
-// checkFrame: a declared modifies clause must cover everything the body may
-// write (static check on the write set).
-func (fc *FnCtx) checkFrame() {
-	c := fc.contract
-	if c == nil || !c.HasMod {
-		return
-	}
-	declared := newWS()
-	fc.modifiesToWS(c, declared)
-	if declared.All {
-		return
-	}
-	delete(fc.eng.writeSetMemo, fc.fn)
-	actual := fc.funcWrites(fc.fn, 0)
-	var extra []string
-	if actual.All {
-		extra = append(extra, "<unknown effects: a callee without contract or model>")
-	}
-	for _, n := range actual.sorted() {
-		if n == "alloc" || declared.Names[n] {
-			continue
-		}
-		// memory allocated by the function itself is not part of the frame:
-		// approximated by allowing writes to element memory (Mem_*) only if declared
-		extra = append(extra, n)
-	}
-	if len(extra) > 0 {
-		fc.assertUnmatched(fmt.Sprintf("%s:modifies", fc.name), "body may write outside the declared frame: "+strings.Join(extra, ", "))
-	}
-}
+// checkFrame: the frame condition is checked semantically at every return
+// (see doReturn); nothing to do statically.
+func (fc *FnCtx) checkFrame() {}
 
 func (fc *FnCtx) nextCount(k string) int {
 	fc.counters[k]++
@@ -785,6 +758,27 @@ func (e *Engine) globalFacts(g *ssa.Global, name string, sort Sort) {
 						}
 						e.GAxiom("init_"+name, fmt.Sprintf("(assert (= %s %s))", name, lit.S), name)
 						continue
+					}
+					// alias of another package-level variable: same value
+					var ref *ast.Ident
+					switch r := vs.Values[i].(type) {
+					case *ast.Ident:
+						ref = r
+					case *ast.SelectorExpr:
+						ref = r.Sel
+					}
+					if ref != nil {
+						if ov, ok := pkg.TypesInfo.Uses[ref].(*types.Var); ok && ov.Pkg() != nil && ov.Parent() == ov.Pkg().Scope() {
+							if sp := e.Prog.Package(ov.Pkg()); sp != nil {
+								if og, ok := sp.Members[ov.Name()].(*ssa.Global); ok && !e.assignedOutsideInit(og) {
+									oname := "G_" + mangle(og.Pkg.Pkg.Name()+"_"+og.Name())
+									osort := e.U.SortOf(og.Type().(*types.Pointer).Elem())
+									e.GDecl(oname, fmt.Sprintf("(declare-const %s %s)", oname, osort))
+									e.globalFacts(og, oname, osort)
+									e.GAxiom("alias_"+name, fmt.Sprintf("(assert (= %s %s))", name, oname), name)
+								}
+							}
+						}
 					}
 					// error variable initialised with a composite value: non-nil sentinel
 					if _, ok := vs.Values[i].(*ast.CompositeLit); ok && (types.Identical(obj.Type(), types.Universe.Lookup("error").Type()) || isErrorish(obj.Type())) {
